@@ -85,7 +85,7 @@ def check_archive(path: str, job: dict, outputs: dict, job_dir: str):
                 if "contentSize" in byid[i] and int(byid[i]["contentSize"]) != len(data):
                     probs.append(("file:size", f"{i}: recorded size {byid[i]['contentSize']} != {len(data)}"))
     for nm in names:
-        if nm not in ("ro-crate-metadata.json", "ro-crate-preview.html") and nm not in byid:
+        if nm not in ("ro-crate-metadata.json", "ro-crate-preview.html") and nm.rstrip("/") not in byid:
             probs.append(("archive:undescribed-member", f"{nm} is in the archive but no entity describes it"))
     # inputs / outputs of the run
     main_id = (root or {}).get("mainEntity", {}).get("@id")
@@ -95,8 +95,46 @@ def check_archive(path: str, job: dict, outputs: dict, job_dir: str):
     objs = [byid[r["@id"]] for a in actions for r in a.get("object", []) if r.get("@id") in byid]
     ress = [byid[r["@id"]] for a in actions for r in a.get("result", []) if r.get("@id") in byid]
 
+    def dir_files(v):
+        """sha1 of every regular file of a Directory value (from its listing, else from disk)"""
+        out = []
+        if "listing" in v:
+            for x in v["listing"]:
+                if x.get("class") == "File":
+                    out.append(x.get("checksum", "sha1$")[5:] or (C.sha1_file(x["path"]) if x.get("path") and os.path.exists(x["path"]) else None))
+                elif x.get("class") == "Directory":
+                    out += dir_files(x)
+        elif v.get("path") and os.path.isdir(v["path"]):
+            for base, _, files in os.walk(v["path"]):
+                out += [C.sha1_file(os.path.join(base, f)) for f in files]
+        return [x for x in out if x]
+
+    def names_of(e):
+        a = e.get("alternateName")
+        return a if isinstance(a, list) else [a]
+
     def represented(pool, name, value, what):
         if value is None:
+            return
+        if isinstance(value, dict) and value.get("class") == "Directory":
+            base = value.get("basename") or os.path.basename(str(value.get("path", "")).rstrip("/"))
+            ds = [e for e in pool if "Dataset" in _types(e) and base in names_of(e)]
+            if not ds:
+                probs.append((f"io:{what}-directory-missing", f"{name}: no Dataset entity named {base!r} linked from the run action"))
+                return
+            # every regular file of the directory is a File entity below that Dataset, under its own sha1
+            below, todo = set(), [ds[0]["@id"]]
+            while todo:
+                cur = todo.pop()
+                for r in byid.get(cur, {}).get("hasPart", []) or []:
+                    if r.get("@id") in byid and r["@id"] not in below:
+                        below.add(r["@id"])
+                        todo.append(r["@id"])
+            recorded = {byid[i].get("sha1") for i in below if "File" in _types(byid[i])}
+            for sha in dir_files(value):
+                if sha not in recorded:
+                    probs.append((f"io:{what}-directory-file-missing",
+                                  f"{name}: file with sha1 {sha} of directory {base!r} has no File entity with that sha1 below {ds[0]['@id']}"))
             return
         if isinstance(value, dict) and value.get("class") == "File":
             sha = value.get("checksum", "sha1$")[5:] or None
@@ -121,6 +159,21 @@ def check_archive(path: str, job: dict, outputs: dict, job_dir: str):
     for k, v in (outputs or {}).items():
         represented(ress, k, v, "output")
     return probs, ents, names
+
+
+def directory_doc():
+    """a Directory input with three files and a sub-directory; a tool copying it and a tool emitting a three-file directory with a
+    nested two-file directory: several regular files per directory level (what `_list_dir` checksums)"""
+    mk = {"class": "CommandLineTool", "requirements": {"ShellCommandRequirement": {}},
+          "inputs": {"tag": "string"},
+          "arguments": [{"shellQuote": False, "valueFrom": "mkdir -p out/nested && echo one > out/f1.txt && echo two > out/f2.txt && "
+                                                            "echo three > out/f3.txt && echo n1 > out/nested/n1.txt && echo n2 > out/nested/n2.txt"}],
+          "outputs": {"o": {"type": "Directory", "outputBinding": {"glob": "out"}}}}
+    ls = {"class": "CommandLineTool", "baseCommand": ["ls"], "inputs": {"d": {"type": "Directory", "inputBinding": {"position": 1}}},
+          "stdout": "listing.txt", "outputs": {"o": {"type": "stdout"}}}
+    return {"cwlVersion": "v1.2", "class": "Workflow", "inputs": {"d": "Directory", "tag": "string"},
+            "outputs": {"made": {"type": "Directory", "outputSource": "mk/o"}, "listing": {"type": "File", "outputSource": "ls/o"}},
+            "steps": {"mk": {"run": mk, "in": {"tag": "tag"}, "out": ["o"]}, "ls": {"run": ls, "in": {"d": "d"}, "out": ["o"]}}}
 
 
 class C34(Property):
@@ -160,7 +213,7 @@ class C34(Property):
     def explore(self, ctx: Ctx) -> None:
         C.warm_up()
         rng = ctx.rng
-        n = {"quick": 10, "thorough": 90}[ctx.tier] * (2 if ctx.mode == "search" else 1)
+        n = {"quick": 8, "thorough": 90}[ctx.tier] * (2 if ctx.mode == "search" else 1)
         cases, descs = [], {}
         # corpus: a fixed three-step document with a File, an array and a null output
         for i in range(n + 1):
@@ -171,6 +224,20 @@ class C34(Property):
                 desc = G.gen_workflow(rng, dd, G.SAFE_FEATURES)
             descs[i] = desc
             cases.append({"id": i, "dir": dd, "doc": "wf.cwl", "job": "job.json", "name": "wf", "timeout": 900, "prov": True, "only_sf": True})
+        # Directory input (3 files + a 2-file sub-directory) and a Directory output (3 files + nested 2 files)
+        dd = os.path.join(ctx.scratch, f"dirdoc{ctx.mode}")
+        os.makedirs(os.path.join(dd, "indir", "sub"), exist_ok=True)
+        for nm in ("a.txt", "b.txt", "c.txt"):
+            open(os.path.join(dd, "indir", nm), "w").write(f"input {nm}\n")
+        for nm in ("s1.txt", "s2.txt"):
+            open(os.path.join(dd, "indir", "sub", nm), "w").write(f"sub {nm}\n")
+        ddoc = directory_doc()
+        json.dump(ddoc, open(os.path.join(dd, "wf.cwl"), "w"), indent=1)
+        djob = {"d": {"class": "Directory", "path": os.path.join(dd, "indir")}, "tag": "t"}
+        json.dump(djob, open(os.path.join(dd, "job.json"), "w"))
+        descs["dir"] = {"doc": ddoc, "job": djob, "features": ["Directory-input", "Directory-output"], "steps": 2}
+        cases.insert(0, {"id": "dir", "dir": dd, "doc": "wf.cwl", "job": "job.json", "name": "wf", "timeout": 900, "prov": True, "only_sf": True})
+        ctx.corpus_replayed += 1
         # a run whose main entity is a bare CommandLineTool (DESIGN §6 #22)
         td = os.path.join(ctx.scratch, "tool")
         tdesc = GT.gen_tool(__import__("random").Random(3), td, {"string", "int"}, n_inputs=2)
@@ -236,6 +303,17 @@ class C34(Property):
         dd = os.path.join(ctx.scratch, "replay")
         os.makedirs(dd, exist_ok=True)
         json.dump(r["doc"], open(os.path.join(dd, r.get("file", "wf.cwl")), "w"), indent=1)
+        for v in r["job"].values():  # recreate input files / directories of the recorded job
+            if isinstance(v, dict) and v.get("class") == "Directory" and not os.path.exists(v.get("path", "")):
+                v["path"] = os.path.join(dd, "indir")
+                os.makedirs(os.path.join(v["path"], "sub"), exist_ok=True)
+                for nm in ("a.txt", "b.txt", "c.txt"):
+                    open(os.path.join(v["path"], nm), "w").write(f"input {nm}\n")
+                for nm in ("s1.txt", "s2.txt"):
+                    open(os.path.join(v["path"], "sub", nm), "w").write(f"sub {nm}\n")
+            elif isinstance(v, dict) and v.get("class") == "File" and not os.path.exists(v.get("path", "")):
+                v["path"] = os.path.join(dd, os.path.basename(v["path"]))
+                open(v["path"], "w").write("content\n")
         json.dump(r["job"], open(os.path.join(dd, "job.json"), "w"))
         res = C.run_case({"dir": dd, "doc": r.get("file", "wf.cwl"), "job": "job.json", "name": "wf", "timeout": 900, "prov": True, "only_sf": True})
         print("run:", C.outcome(res["sf"]), " export:", res.get("prov"))
